@@ -700,6 +700,11 @@ class Executor:
             elif k == 'field':
                 if isinstance(cur, (Agg, Enum)):
                     cont, key = cur.fields, pr[1]
+                    if key >= len(cont) and isinstance(cur, Agg) and cur.kind == 'closure' and not cont and len(pr) > 2:
+                        # `const ZeroSized: {closure}`: every capture is a zero-sized value (e.g. a BuildHasherDefault);
+                        # materialise it from the type annotation of the projection
+                        while len(cont) <= key:
+                            cont.append(self._zst(pr[2]) if len(cont) == key else Agg('struct', '?zst', [], []))
                     if key >= len(cont):
                         raise Unsupported('field %d of %r' % (key, cur))
                 elif hasattr(cur, 'field_slot'):
